@@ -30,6 +30,10 @@ type c38Case struct {
 	A, B   c38Opts
 	BRepo  kit.Repo // description used for the second run (documents identical)
 	Change string   // which single aspect differs between (A, Repo) and (B, BRepo)
+	// Sidecar: between the two runs something wrote a metadata sidecar for the
+	// first shard (a metadata-only update or a tombstone operation does that);
+	// it carries the description as stored, plus a note in RawConfig
+	Sidecar bool `json:",omitempty"`
 }
 
 func (o c38Opts) options(dir string, r *kit.Repo) index.Options {
@@ -155,6 +159,61 @@ func runC38(rec *kit.Recorder, c c38Case) error {
 	default:
 		label += "nothing-observable-changed"
 	}
+	// history: (sidecar written,) then the repository is indexed again in place
+	// with (B, BRepo). Whatever happened before, the directory must then be
+	// up to date for (B, BRepo) and hold what a fresh build holds.
+	if c.Sidecar {
+		label2 := "history:sidecar-then-reindex"
+		shard := firstShard(dirA)
+		repos, _, err := index.ReadMetadataPath(shard)
+		if err != nil {
+			return kit.Fail("read", "metadata of the existing shard: %v", err)
+		}
+		for _, r := range repos {
+			if r.RawConfig == nil {
+				r.RawConfig = map[string]string{}
+			}
+			r.RawConfig["note"] = "sidecar"
+		}
+		tmpf, final, err := index.JsonMarshalRepoMetaTemp(shard, repos)
+		if err != nil {
+			return kit.Fail("build", "writing the sidecar: %v", err)
+		}
+		if err := os.Rename(tmpf, final); err != nil {
+			return kit.Fail("build", "installing the sidecar: %v", err)
+		}
+		if err := c38Build(dirA, c.B, &c.BRepo); err != nil {
+			return kit.Fail("build", "re-index in place: %v", err)
+		}
+		optsB2 := c.B.options(dirA, &c.BRepo)
+		if st, _ := optsB2.IndexState(); st != index.IndexStateEqual {
+			return kit.Fail("reindex-not-up-to-date", "%s: right after re-indexing with B (a sidecar had been written for the old shard) IndexState for B is %q, so the repository is re-indexed forever", what, st)
+		}
+		ca2, err := c38Content(dirA)
+		if err != nil {
+			return kit.Fail("read", "%v", err)
+		}
+		if ca2 != cb {
+			return kit.Fail("reindex-differs-from-fresh", "%s: after re-indexing in place the searchable content differs from a fresh build with B", what)
+		}
+		ra, _, err := index.ReadMetadataPathAlive(firstShard(dirA))
+		if err != nil || len(ra) == 0 {
+			return kit.Fail("read", "metadata after re-indexing: %v", err)
+		}
+		if !reflect.DeepEqual(ra[0].Branches, zb.Branches) || descMeta(ra[0]) != descMeta(zb) {
+			return kit.Fail("reindex-differs-from-fresh", "%s: after re-indexing in place the stored description is branches %v %s, a fresh build has %v %s", what, ra[0].Branches, descMeta(ra[0]), zb.Branches, descMeta(zb))
+		}
+		// and the old description is no longer considered up to date when it differs
+		if contentDiffers || branchesDiffer {
+			optsA2 := c.A.options(dirA, &c.Repo)
+			if st, _ := optsA2.IndexState(); st == index.IndexStateEqual || st == index.IndexStateMeta || optsA2.IncrementalSkipIndexing() {
+				return kit.Fail("skipped-stale-index", "%s: after re-indexing with B, a request for A is treated as up to date (state %q)", what, st)
+			}
+		}
+		rec.Eval(fmt.Sprintf("%+v", c), c.Change != "none", label, "change:"+c.Change, "state:"+string(state), label2)
+		rec.Sample(c, c.Change != "none")
+		return nil
+	}
 	rec.Eval(fmt.Sprintf("%+v", c), c.Change != "none", label, "change:"+c.Change, "state:"+string(state))
 	rec.Sample(c, c.Change != "none")
 	return nil
@@ -171,7 +230,7 @@ func firstShard(dir string) string {
 
 func TestVerif_C38(t *testing.T) {
 	rec := kit.Open(t, "C38",
-		"a generated repository (documents of 5-400 bytes, some with many distinct trigrams, names matching or not matching large-file patterns) indexed once with options A; then options / description B differing from A in exactly one aspect (SizeMax, TrigramMax, LargeFiles, ShardMax, Parallelism, a branch version (possibly empty), the branch set, a renamed branch, Metadata, RawConfig, URL or a URL template, or nothing); IndexState / IncrementalSkipIndexing for B over A's index is judged against ground truth obtained by indexing with B from scratch and comparing every document's name, content and branches; non-trivial = something differs between A and B; distinct by hash",
+		"a generated repository (documents of 5-400 bytes, some with many distinct trigrams, names matching or not matching large-file patterns) indexed once with options A; then options / description B differing from A in exactly one aspect (SizeMax, TrigramMax, LargeFiles, ShardMax, Parallelism, a branch version (possibly empty), the branch set, a renamed branch, Metadata (changed, added or dropped keys), RawConfig, URL or a URL template, or nothing); in 30% of the cases a metadata sidecar is then written for the old shard and the repository is re-indexed in place with B, after which the directory must be up to date for B and equal a fresh build; IndexState / IncrementalSkipIndexing for B over A's index is judged against ground truth obtained by indexing with B from scratch and comparing every document's name, content and branches; non-trivial = something differs between A and B; distinct by hash",
 		"SetDefaults is applied before IndexState, as every caller does",
 		"a metadata-only change must be classified meta-mismatch (and MergeMutable must then bring the stored description to the new values) or cause a re-index; it must not be classified equal",
 		"ctags is not installed, so symbol-affecting options are not exercised (DisableCTags is constant)",
@@ -184,6 +243,9 @@ func TestVerif_C38(t *testing.T) {
 		// versions may be empty (directory / archive style indexing without a commit)
 		for i := range r.Branches {
 			r.Branches[i].Version = kit.Pick(g, []string{"aaaa", "bbbb", "", ""}, "version")
+		}
+		if g.Bool(50, "twokeys") {
+			r.Metadata["tier"] = "gold"
 		}
 		nd := g.Int(2, 6, "ndocs")
 		for i := 0; i < nd; i++ {
@@ -214,8 +276,12 @@ func TestVerif_C38(t *testing.T) {
 			LargeFiles: kit.Pick(g, [][]string{nil, {"*.big"}, {"*.big", "!d.big*"}}, "largefiles")}
 		c := c38Case{Repo: r, A: a, B: a, BRepo: r}
 		c.BRepo.Branches = append([]kit.Branch(nil), r.Branches...)
-		c.BRepo.Metadata = map[string]string{"team": "alpha"}
+		c.BRepo.Metadata = map[string]string{}
+		for k, v := range r.Metadata {
+			c.BRepo.Metadata[k] = v
+		}
 		c.BRepo.RawConfig = map[string]string{"public": "1"}
+		c.Sidecar = g.Bool(30, "sidecar")
 		c.Change = kit.Pick(g, []string{"SizeMax", "TrigramMax", "LargeFiles", "LargeFilesOrder", "ShardMax", "Parallelism", "BranchVersion", "BranchSet", "BranchRename", "BranchRename", "Metadata", "RawConfig", "URL", "FileURLTemplate", "none", "TrigramMax", "Metadata"}, "change")
 		other := func(cur int, vals []int) int {
 			for {
@@ -283,9 +349,21 @@ func TestVerif_C38(t *testing.T) {
 			}
 			c.BRepo.Docs = docs
 		case "Metadata":
-			c.BRepo.Metadata = map[string]string{"team": kit.Pick(g, []string{"beta", ""}, "newteam")}
-			if g.Bool(30, "addkey") {
-				c.BRepo.Metadata = map[string]string{"team": "alpha", "owner": "x"}
+			switch g.U(4, "metahow") {
+			case 0:
+				c.BRepo.Metadata["team"] = kit.Pick(g, []string{"beta", ""}, "newteam")
+			case 1:
+				c.BRepo.Metadata["owner"] = "x"
+			case 2:
+				// a key is dropped (the new description is a non-nil subset)
+				// (never the last one: an empty description reads as "no opinion")
+				if len(c.BRepo.Metadata) >= 2 {
+					delete(c.BRepo.Metadata, kit.Pick(g, []string{"team", "tier"}, "dropkey"))
+				} else {
+					c.BRepo.Metadata["team"] = "beta"
+				}
+			default:
+				c.BRepo.Metadata = map[string]string{"team": "beta"}
 			}
 		case "RawConfig":
 			c.BRepo.RawConfig = map[string]string{"public": "0", "fork": "1"}
